@@ -186,12 +186,12 @@ RefSetShape(lines, w, h, ps) ==
     IN [i \in 1..k |-> IF i <= Len(lines) THEN RefAdjust(lines[i], w, ps, TRUE)
                        ELSE <<Seg(Spaces(w), ps, FALSE)>>]
 
-\* simplify (304-329): merge a segment into its predecessor when the styles are equal and the
-\* *second* one is not control (the merged segment is never control)
+\* simplify: merge a segment into its predecessor when the styles are equal and NEITHER is a
+\* control segment (rich 9.10.0 only tested the second one; repaired in /repo, see C15)
 RECURSIVE SimplifyLoop(_, _, _, _)
 SimplifyLoop(segs, i, last, out) ==
     IF i > Len(segs) THEN Append(out, last)
-    ELSE IF last.style = segs[i].style /\ ~segs[i].control
+    ELSE IF last.style = segs[i].style /\ ~segs[i].control /\ ~last.control
          THEN SimplifyLoop(segs, i + 1, Seg(last.cells \o segs[i].cells, last.style, FALSE), out)
          ELSE SimplifyLoop(segs, i + 1, segs[i], Append(out, last))
 RefSimplify(segs) == IF segs = <<>> THEN <<>> ELSE SimplifyLoop(segs, 2, segs[1], <<>>)
